@@ -655,7 +655,7 @@ func (g *Gen) run() {
 						n := calleeName(&call.Call)
 						ord := g.callOrdinal(&call.Call, n)
 						keys := []string{n, fmt.Sprintf("%s#%d", n, ord)}
-						if f, ok := call.Call.Value.(*ssa.Function); ok && f.Pkg != nil {
+						if f, ok := call.Call.Value.(*ssa.Function); ok && f.Pkg != nil && f.Pkg == g.f.Pkg {
 							sh := f.RelString(f.Pkg.Pkg)
 							keys = append(keys, sh, fmt.Sprintf("%s#%d", sh, ord))
 						}
